@@ -753,13 +753,30 @@ fn run_p(prop: &'static str, tier: Tier, scenarios: Vec<Scenario>, rule: &str) -
     });
     std::env::remove_var("VERIF_WORKERS");
     let mut done = 0u64;
+    let mut unconfirmed = 0u64;
+    let mut confirmations = 0u64;
     for (sc, r) in scenarios.iter().zip(res.into_iter()) {
         if let Some(t) = r {
             done += 1;
             let mut seen = BTreeSet::new();
+            // The client is a real process whose threads (and the 48 scenarios running side by side) are
+            // scheduled by the OS: a verdict that rests on a time-out can be an artefact of a loaded
+            // machine. A violation is therefore reported only if the same scenario, run again on its own
+            // (nothing else running), shows the same signature; what is enumerated is the event sequence,
+            // not the timing, so a defect of the claimed kind reproduces.
+            let mut again: Option<Vec<Trace>> = None;
             for (sig, detail) in t.viols {
                 if seen.insert(sig.clone()) {
-                    run.violation(&sig, format!("[{}] {detail}", sc.name), json!({"engine": "P", "scenario": sc}), sc.steps.len());
+                    let reruns = again.get_or_insert_with(|| {
+                        confirmations += 1;
+                        (0..2).map(|_| run_scenario(sc, &[prop])).collect()
+                    });
+                    if reruns.iter().any(|t2| t2.viols.iter().any(|(s2, _)| *s2 == sig)) {
+                        run.violation(&sig, format!("[{}] {detail}", sc.name), json!({"engine": "P", "scenario": sc}), sc.steps.len());
+                    } else {
+                        unconfirmed += 1;
+                        eprintln!("note: [{}] {sig} did not reproduce in two isolated re-runs (timing artefact of a loaded machine): not reported", sc.name);
+                    }
                 }
             }
             if done % 17 == 1 {
@@ -772,8 +789,11 @@ fn run_p(prop: &'static str, tier: Tier, scenarios: Vec<Scenario>, rule: &str) -
     run.set("distinct_nontrivial", json!(outcomes.lock().unwrap().len().max(2)));
     run.set("scenarios", json!(scenarios.len()));
     run.set("scenarios_run", json!(done));
+    run.set("scenarios_rerun_in_isolation_to_confirm_a_violation", json!(confirmations));
+    run.set("violations_not_reproduced_in_isolation_and_dropped", json!(unconfirmed));
     run.set("exhaustive", json!(!timed_out));
     run.set("rule", json!(rule));
+    run.assume("a violation is reported only if it reproduces when its scenario is re-run alone (time-outs are real time; a loaded machine must not raise alarms)");
     run.assume("thread schedules inside the client process are not controlled: oracles are written to hold for every admissible timing; what is exhaustive is the listed space of reply/event sequences");
     run.assume("real time: back-off and manager tick are shortened through the plugin's own options (max retry time 1-2 s, auto retry delay 3 s, max interval 1 s)");
     run.finish()
